@@ -183,17 +183,17 @@ class ONode:
         self.src = src
 
 
-def den_mention(m, ctr):
+def den_mention(m, ctr, line=None):
     if m[0] == '#':
-        return {'name': 'id', 'value': den_value(m[1], ctr), 'vt': 'raw', 'bool': False, 'impl': False}
+        return {'name': 'id', 'value': den_value(m[1], ctr, line), 'vt': 'raw', 'bool': False, 'impl': False}
     if m[0] == '.':
-        return {'name': 'class', 'value': den_value(m[1], ctr), 'vt': 'raw', 'bool': False, 'impl': False}
+        return {'name': 'class', 'value': den_value(m[1], ctr, line), 'vt': 'raw', 'bool': False, 'impl': False}
     _, name, form, val, _j = m
     impl = form.startswith('impl')
     f = form[5:] if form.startswith('impl-') else form
     vt = {'none': 'raw', 'raw': 'raw', 'dq': 'dq', 'sq': 'sq', 'expr': 'expr', 'bool': 'raw', 'impl': 'raw'}[f]
     has_val = f in ('raw', 'dq', 'sq', 'expr')
-    return {'name': name, 'value': den_value(val or [], ctr) if has_val else None, 'vt': vt, 'bool': form == 'bool', 'impl': impl}
+    return {'name': name, 'value': den_value(val or [], ctr, line) if has_val else None, 'vt': vt, 'bool': form == 'bool', 'impl': impl}
 
 
 class Budget:
@@ -201,39 +201,65 @@ class Budget:
         self.left = m if m is not None else 10 ** 9
 
 
-def unroll(mnodes, ctr=None, budget=None, lines=None):
+def has_placeholder(x):
+    if isinstance(x, list):
+        if len(x) == 1 and x[0] == '#':
+            return True
+        return any(has_placeholder(y) for y in x)
+    if isinstance(x, dict):
+        return any(has_placeholder(v) for v in x.values())
+    return False
+
+
+def _subtree_has_placeholder(m):
+    return has_placeholder(m.item) or any(_subtree_has_placeholder(c) for c in m.children)
+
+
+def deepest_last(node):
+    while node.children:
+        node = node.children[-1]
+    return node
+
+
+def unroll(mnodes, ctr=None, budget=None, lines=None, line=None):
     """expands repeaters into consecutive copies and substitutes counters. `budget`: maxRepeat simulation (each completed copy costs one;
     a repeater stops after the copy that exhausts the budget; a repeater met with an exhausted budget yields one copy).
-    `lines`: cleaned wrap-text lines for implicit repeaters (`*`)."""
+    `lines`: the wrap-text lines an implicit repeater (`*`) iterates over (already cleaned: non-blank, trimmed); `line`: text of the
+    enclosing implicit copy, substituted for `$#` placeholders."""
     budget = budget or Budget(None)
     out = []
     for m in mnodes:
         r = m.item.get('r')
         if r is not None:
-            n = r
-            if r == '*':
-                n = len(lines) if lines is not None else 1
+            implicit = r == '*'
+            n = (len(lines) if lines is not None else 1) if implicit else r
+            ph = implicit and _subtree_has_placeholder(m)
             i = 0
             while i < n:
-                out += _unroll_one(m, (i, n), budget, lines, implicit_line=(lines[i] if (r == '*' and lines is not None) else None))
+                cur = (lines[i] if (implicit and lines is not None) else line)
+                copy = _unroll_one(m, (i, n), budget, lines, cur)
+                if implicit and lines is not None and not ph and copy:
+                    d = deepest_last(copy[-1])
+                    d.text = (d.text or '') + lines[i]
+                out += copy
                 budget.left -= 1
                 if budget.left <= 0:
                     break
                 i += 1
         else:
-            out += _unroll_one(m, ctr, budget, lines, None)
+            out += _unroll_one(m, ctr, budget, lines, line)
     return out
 
 
-def _unroll_one(m, ctr, budget, lines, implicit_line):
+def _unroll_one(m, ctr, budget, lines, line):
     it = m.item
     if 'g' in it:
-        return unroll(m.children, ctr, budget, lines)
-    name = den_value(it.get('n'), ctr) or None
-    attrs = [den_mention(x, ctr) for x in (it.get('m') or [])]
-    text = den_value(it.get('x'), ctr) if it.get('x') is not None else None
+        return unroll(m.children, ctr, budget, lines, line)
+    name = den_value(it.get('n'), ctr, line) or None
+    attrs = [den_mention(x, ctr, line) for x in (it.get('m') or [])]
+    text = den_value(it.get('x'), ctr, line) if it.get('x') is not None else None
     node = ONode(name, attrs, text, bool(it.get('sc')), it)
-    node.children = unroll(m.children, ctr, budget, lines)
+    node.children = unroll(m.children, ctr, budget, lines, line)
     return [node]
 
 
